@@ -261,6 +261,18 @@ func TestGrid(t *testing.T) {
 			}
 		}
 	}
+	if shard == 0 { // a few very large bitmaps in every run
+		for style := 0; style <= 5; style++ {
+			for _, n := range []int{65536, 70001} {
+				spec := gen.BigSpec{N: n, Key: uint64(7000*style + n), Style: style}
+				q := make([]int32, 300)
+				for i := range q {
+					q[i] = int32(vk.Mix(uint64(i)+spec.Key) >> 33)
+				}
+				checker.Run(t, Case{Big: &spec, Style: "grid-big", Queries: q})
+			}
+		}
+	}
 	what := "every byte value x 8 byte positions x 4 fills as [w] and [w,0,w], every i"
 	if vk.Thorough() {
 		for _, fill := range fills[:3] {
